@@ -740,3 +740,50 @@ T("N47", "C19", L + "ntheory_util.py", "    return [x for x in range(2**k) if (x
 T("N48", "C19", L + "small_roots.py", "    rx = -factor[0].TC() // factor[0].LC()\n    y = f(rx)\n", "    rx = -factor[0].TC() // factor[0].LC()\n    if not -b < rx < b:\n      continue\n    y = f(rx)\n", "candidates outside the documented range skipped")
 T("N49", "C05", L + "rsa_util.py", "          if rem0 <= p0 + q0:", "          if rem0 < p0 + q0 + 1:", "pruning bound written strictly")
 T("N50", "C18", L + "rsa_util.py", "      2 ** (prime_size - 256),\n", "      2 ** (prime_size - 256),\n      2 ** (prime_size - 384),\n", "a difference covered by the 384-bit gate")
+
+# ---------------------------------------------------------------------------------- round 6 rows (38 stored patches)
+S("O01", "C01", "C01-r6a", "R-C01-PROPER", "the acceptance test for a gcd obtained from a rational root of the quadratic a*z^2+b*z+c w")
+S("O02", "C01", "C01-r6b", "R-C01-SINK", "rsa_aggregate_checks.CheckGCDN1.Check now feeds BatchGCD with n >> 1 instead of n - 1 (com")
+S("O03", "C02", "C02-r6a", "R-C02-SANITISE", "ecdsa_sig_checks._IssuerDLogs now multiplies the lattice guesses in blocks of 256 (range(0")
+S("O04", "C02", "C02-r6b", "R-C02-ALIGN", "ec_aggregate_checks.CheckECKeySmallDifference.Check now de-duplicates the public points of")
+S("O05", "C03", "C03-r6a", "R-C03-DEDUP", "rsa_util.BatchGCD no longer multiplies T by other_values_prod before the remainder tree; i")
+S("O06", "C03", "C03-r6b", "R-C03-EMPTY", "rsa_aggregate_checks.CheckGCD.Check now computes its return value once as any_weak = max(g")
+S("O07", "C04", "C04-r6a", "R-C04-EXHAUST", "rsa_util.CheckSmallUpperDifferences now skips a difference D whenever the derived guess p0")
+S("O08", "C04", "C04-r6b", "R-C04-MSB", "rsa_single_checks.CheckUnseededRand now fetches the unseeded-PRNG table from the storage o")
+S("O09", "C05", "C05-r6a", "R-C05-CONSTRUCT", "rsa_util.CheckContinuedFraction now expands the continued fraction of only the leading qua")
+S("O10", "C05", "C05-r6b", "R-C05-PM1", "ntheory_util.FastProduct now multiplies adjacent pairs with an index loop (range(0, len(va")
+S("O11", "C06", "C06-r6a", "R-C06-PRED", "rsa_single_checks.CheckSizes.Check no longer converts the modulus to an integer to take it")
+S("O12", "C06", "C06-r6b", "R-C06-PRED", "ec_single_checks.CheckWeakCurve.Check now compares the curve order against the value 2**22")
+S("O13", "C07", "C07-r6a", "R-C07-EXACT", "rsa_single_checks.CheckExponents.Check no longer converts rsa_info.e to an integer but com")
+S("O14", "C07", "C07-r6b", "R-C07-NEIGHBOUR", "the per-issuer-key `test_result = self._CreateTestResult()` was hoisted out of the `for ke")
+S("O15", "C08", "C08-r6a", "R-C08-WINDOW", "ecdsa_sig_checks.BiasedBaseCheck.Check now only iterates over the window sizes of (24, 48,")
+S("O16", "C08", "C08-r6b", "R-C08-LCG-TABLE", "the lattice weight 'w' of the shipped model for GMP's 156-bit-state LCG on secp384r1 is no")
+S("O17", "C09", "C09-r6a", "R-C09-PAIR", "ecdsa_sig_checks.BiasedBaseCheck.Check now wraps HiddenNumberParams in try/except ZeroDivi")
+S("O18", "C09", "C09-r6b", "R-C09-HNP", "In ec_util.CURVE_FACTORY the dictionary key of the brainpoolP512r1 entry was changed from ")
+S("O19", "C10", "C10-r6a", "R-C10-DUP", "In ec_util.EcCurve.BatchDLOfDifferences the duplicate-key guard inside the inner compariso")
+S("O20", "C10", "C10-r6b", "R-C10-FORMS", "In ec_util.EcCurve.ExtendedBatchDL the multipliers of the 'repeated 32-bit word' family (1")
+S("O21", "C11", "C11-r6a", "R-C11-DISPATCH", "In EcCurve.BatchAdd the zero-denominator fallback no longer calls self.Add(p, points[i]); ")
+S("O22", "C11", "C11-r6b", "R-C11-SCALAR", "EcCurve.Multiply now defers the sign of a negative scalar to the end (negative = n < 0; n ")
+S("O23", "C12", "C12-r6a", "R-C12-MINSIZE", "the guard of the random excursions variant test (Section 2.15) was changed from `excursion")
+S("O24", "C12", "C12-r6b", "R-C12-CONSIST", "the centre of the linear-complexity classes was 'simplified' from `median = (m + 1) // 2` ")
+S("O25", "C13", "C13-r6a", "R-C13-ENTRY", "random_test_suite.TestSource now skips a TestStructure in the repeat loop when it is finis")
+S("O26", "C13", "C13-r6b", "R-C13-FISHER", "util.CombinedPValue (Fisher's method) now drops p-values equal to 1.0 before combining ('l")
+S("O27", "C14", "C14-r6a", "R-C14-BM", "Added an early exit inside the main loop of berlekamp_massey.LinearComplexityNative: after")
+S("O28", "C14", "C14-r6b", "R-C14-CLOSED", "berlekamp_massey.LfsrLogProbability no longer uses its own integer piecewise formula but d")
+S("O29", "C16", "C16-r6a", "R-C16-MONO", "util.GetTestResult (the lookup SetTestResult uses to decide between 'update existing entry")
+S("O30", "C16", "C16-r6b", "R-C16-ENTRY", "in the 'suspected but not factored' branch the severity downgrade is written to the check ")
+S("O31", "C17", "C17-r6a", "R-C17-OWN", "the per-issuer-key `test_result = self._CreateTestResult()` was hoisted out of the `for ke")
+S("O32", "C17", "C17-r6b", "R-C17-CACHE", "the number of high blocks was changed from the ceiling `r = (n + m - 1) // m` to the floor")
+S("O33", "C18", "C18-r6a", "R-C18-NEXT", "the for/break search for a proper factor of a fully-shared modulus (with its `proper is no")
+S("O34", "C18", "C18-r6b", "R-C18-JACOBIAN", "the guard `if z == 0 or y == 0: return INFINITY_JACOBIAN` became `if z == 0: return p` (re")
+S("O35", "C19", "C19-r6a", "R-C19-DIVMOD", "ntheory_util.DivmodRounded now adds d = (b + 1) // 2 instead of d = b // 2 before the floo")
+S("O36", "C19", "C19-r6b", "R-C19-ROOTS", "small_roots.multivariate_modp's final acceptance test was 'hardened' from `y != 0 and n % ")
+S("O37", "C20", "C20-r6a", "R-C20-PURE", "NumpyRng (base of pcg64/philox/sfc64) now keeps the numpy BitGenerator built for the last ")
+S("O38", "C20", "C20-r6b", "R-C20-CONST", "JavaRandom.RandomBits scrambles the seed with `(seed ^ a) % mask` instead of `(seed ^ a) &")
+
+# silent twins of the round-6 rules
+T("O40", "C12", NS_, "  if excursions >= 500:\n    for x in range(-max_state_variant, max_state_variant + 1):", "  if not excursions < 500:\n    for x in range(-max_state_variant, max_state_variant + 1):", "variant gate spelled as a negation")
+T("O41", "C06", L + "rsa_single_checks.py", "      if e != 65537:", "      if not e == 0x10001:", "exponent criterion with a negated equality and a hex literal")
+T("O42", "C04", L + "rsa_util.py", "    factors = special_case_factoring.FactorWithGuess(n, p0)\n    if factors:\n      return factors\n", "    factors = special_case_factoring.FactorWithGuess(n, p0)\n    if not factors:\n      continue\n    return factors\n", "continue after the candidate was tested")
+T("O43", "C09", L + "ecdsa_sig_checks.py", "        a, b = [None] * len(unique_vals), [None] * len(unique_vals)\n", "        a = [None] * len(unique_vals)\n        b = [None] * len(unique_vals)\n", "the two lists allocated separately")
+T("O44", "C18", L + "rsa_aggregate_checks.py", "          proper = None\n          for val in vals:\n            g = gmpy.gcd(vals[i], val)\n            if 1 < g < vals[i]:\n              proper = g\n              break\n", "          proper = next((g for g in (gmpy.gcd(vals[i], val) for val in vals) if 1 < g < vals[i]), None)\n", "next() with a default")
